@@ -309,17 +309,20 @@ func (it *Iterator) Seek(key []byte) {
 
 	// Start at the highest level, and work our way down
 	// At each level, move right as far as possible without overshooting
+	var next *node
 	for level := height - 1; level >= 0; level-- {
-		next := current.getNext(level)
+		next = current.getNext(level)
 		for next != nil && next.entry.compare(key) < 0 {
 			current = next
 			next = current.getNext(level)
 		}
-		// When we exit this loop, current.next[level] is either nil or >= key
+		// When we exit this loop, next is either nil or >= key
 	}
 
-	// Move to the next node at level 0, which should be >= target
-	it.current = current.getNext(0)
+	// Move to the node found at level 0, which is >= target. The link must not
+	// be read a second time: a concurrent insert may have put a smaller key
+	// right behind current in the meantime
+	it.current = next
 
 	// Skip nodes that are not visible in our snapshot
 	for it.current != nil && it.current != it.list.head && !it.isVisible(it.current) {
